@@ -44,3 +44,9 @@ void use_geigs_f(OpA& a, OpB& b, SOpA& sa, ROpB& rb, SI& si, SIB& sib)
     s4.init(); s4.compute(); (void) s4.eigenvectors(); (void) s4.eigenvalues(); (void) s4.num_operations();
     s5.init(); s5.compute(); (void) s5.eigenvectors(); (void) s5.eigenvalues(); (void) s5.num_operations();
 }
+// the solver's constructor may be a member template: instantiate it by use (same-type and column-major arguments)
+typedef Eigen::Matrix<float, Eigen::Dynamic, Eigen::Dynamic> FMatC;
+void use_svd_ctors_f(const FMatR& r, const FMatC& c)
+{
+    PartialSVDSolver<FMatR> a(r, 1, 2), b(c, 1, 2);
+}
